@@ -31,7 +31,7 @@ func argSet(c *vlib.Ctx, name string) bool {
 
 func run(c *vlib.Ctx) error {
 	switch c.Prop {
-	case "C10", "C41":
+	case "C10", "C41", "C02":
 		return runStaging(c)
 	case "C17":
 		return runEscape(c)
@@ -48,7 +48,7 @@ func replay(c *vlib.Ctx) error {
 	in := begin["in"]
 	b, _ := json.Marshal(in)
 	switch c.Prop {
-	case "C10", "C41":
+	case "C10", "C41", "C02":
 		if m, _ := in.(map[string]any); m != nil && m["subset"] == true {
 			runSubset(c)
 			return nil
